@@ -107,6 +107,9 @@ PROFILES = {
                      jtables=['point', 'two', 'interval'], jix=['key', 'pt', 'struct', 'iv'], jproj=['whole', 'field'],
                      join_ops=['annotate_join', 'select_join', 'annotate_rows_join', 'annotate_cols_join',
                                'annotate_entries_join']),
+    # re-keying (non-leading / several out-of-order / computed key fields), rename, then joins and unions
+    'rekey': dict(rekey=True, wide_start=True, table_ops=['annotate', 'filter', 'stop'], row_exprs=['big'], names=['x'],
+                  ns=[3], fieldidx=[-1], matrix_ops=['annotate_rows', 'stop'], mexprs=['rbig']),
 }
 PF = {}
 
@@ -494,12 +497,113 @@ def apply_matrix_join_op(op, mt, choose):
     raise ValueError(op)
 
 
+# ---- re-keying, joins between tables, unions ------------------------------------------------------------------
+REKEY_TABLE_OPS = ['key_by_fields', 'key_by_computed', 'rename_fields', 'join', 'semi_join', 'anti_join', 'union']
+REKEY_MATRIX_OPS = ['key_rows_by_fields', 'key_cols_by_fields', 'union_cols', 'rename_rows', 'rows', 'cols', 'entries']
+KEY_LISTS = [['b'], ['a'], ['b', 'idx'], ['a', 'b'], ['b', 'a', 'idx'], ['idx', 'b'], []]
+
+
+def _wide_table(n=3):
+    r = hl.utils.range_table(n)
+    return r.annotate(a=r.idx * 2, b=hl.str(r.idx))
+
+
+def _wide_matrix():
+    mt = hl.utils.range_matrix_table(2, 2)
+    mt = mt.annotate_rows(a=mt.row_idx * 2, b=hl.str(mt.row_idx))
+    mt = mt.annotate_cols(ca=mt.col_idx * 2, cb=hl.str(mt.col_idx))
+    return mt.annotate_entries(e=mt.row_idx + mt.col_idx)
+
+
+def _right_for(t, variant):
+    """a second table whose key has the same types as t's key (same base pipeline, one more value field)"""
+    r = _wide_table(4)
+    r = r.annotate(x=r.idx * 1.5)
+    keys = list(t.key)
+    src = {'kk': 'b', 'k': 'a'}
+    r = r.key_by(*[src.get(k, k) for k in keys])      # renamed / computed keys of t map back to base fields
+    if variant == 'renamed':
+        r = r.rename({f: f + '_r' for f in r.row})
+    elif variant == 'extra_key':
+        r = r.key_by(*list(r.key), 'x')
+    elif variant == 'no_value':
+        r = r.select()
+    return r
+
+
+def apply_rekey_table_op(op, t, choose):
+    names = list(t.row)
+    if op == 'key_by_fields':
+        ks = choose('keylist', KEY_LISTS)
+        return t.key_by(*ks)
+    if op == 'key_by_computed':
+        how = choose('ckey', ['expr_only', 'expr_then_field', 'field_then_expr'])
+        e = t[names[0]] if names else None
+        if how == 'expr_only':
+            return t.key_by(k=_int32_of(e) * 2)
+        if how == 'expr_then_field':
+            return t.key_by(k=_int32_of(e) * 2, kk=t[names[-1]])
+        return t.key_by(names[-1], k=_int32_of(e) * 2)
+    if op == 'rename_fields':
+        which = choose('rename', ['key', 'value', 'both'])
+        m = {}
+        if which in ('key', 'both') and len(t.key) > 0:
+            m[list(t.key)[0]] = 'kk'
+        if which in ('value', 'both'):
+            vals = [n for n in names if n not in t.key]
+            if vals:
+                m[vals[-1]] = 'vv'
+        return t.rename(m)
+    if op == 'join':
+        return t.join(_right_for(t, choose('right', ['same', 'renamed', 'extra_key', 'no_value'])),
+                      how=choose('how', ['inner', 'left', 'right', 'outer']))
+    if op == 'semi_join':
+        return t.semi_join(_right_for(t, choose('right', ['same', 'renamed'])))
+    if op == 'anti_join':
+        return t.anti_join(_right_for(t, choose('right', ['same', 'renamed'])))
+    if op == 'union':
+        other = choose('other', ['self', 'filtered', 'rekeyed_same', 'fresh'])
+        if other == 'self':
+            return t.union(t)
+        if other == 'filtered':
+            return t.union(t.filter(hl.is_defined(t[names[0]])))
+        if other == 'rekeyed_same':
+            return t.union(t.key_by(*list(t.key)))
+        return t.union(_wide_table(2).key_by(*[k for k in t.key]), unify=choose('unify', [False, True]))
+    raise ValueError(op)
+
+
+def apply_rekey_matrix_op(op, mt, choose):
+    if op == 'key_rows_by_fields':
+        ks = choose('keylist', [['b'], ['b', 'row_idx'], ['a', 'b'], ['row_idx', 'b'], []])
+        return mt.key_rows_by(*ks)
+    if op == 'key_cols_by_fields':
+        ks = choose('keylist', [['cb'], ['cb', 'col_idx'], ['ca', 'cb'], []])
+        return mt.key_cols_by(*ks)
+    if op == 'rename_rows':
+        return mt.rename({list(mt.row_key)[0] if len(mt.row_key) else list(mt.row)[-1]: 'kk'})
+    if op == 'union_cols':
+        other = _wide_matrix()
+        variant = choose('right', ['same', 'extra_row_field'])
+        if variant == 'extra_row_field':
+            other = other.annotate_rows(z=other.row_idx * 1.5)
+        src = {'kk': 'b'}
+        other = other.key_rows_by(*[src.get(k, k) for k in mt.row_key])
+        return mt.union_cols(other, row_join_type=choose('how', ['inner', 'outer']),
+                             drop_right_row_fields=choose('drop', [True, False]))
+    if op in ('rows', 'cols', 'entries'):
+        return getattr(mt, op)()
+    raise ValueError(op)
+
+
 def _table_ops():
-    return _f('table_ops', TABLE_OPS) + (_f('join_ops', JOIN_TABLE_OPS) if PF.get('joins') else [])
+    return _f('table_ops', TABLE_OPS) + (_f('join_ops', JOIN_TABLE_OPS) if PF.get('joins') else []) + \
+        (_f('rekey_ops', REKEY_TABLE_OPS) if PF.get('rekey') else [])
 
 
 def _matrix_ops():
-    return _f('matrix_ops', MATRIX_OPS) + (_f('join_ops', JOIN_MATRIX_OPS) if PF.get('joins') else [])
+    return _f('matrix_ops', MATRIX_OPS) + (_f('join_ops', JOIN_MATRIX_OPS) if PF.get('joins') else []) + \
+        (_f('rekey_ops', REKEY_MATRIX_OPS) if PF.get('rekey') else [])
 
 
 # ---- table programs ---------------------------------------------------------------------------------------
@@ -525,6 +629,8 @@ TABLE_OPS = ['annotate', 'annotate2', 'select', 'select_expr', 'key_by', 'key_by
 def apply_table_op(op, t, choose):
     if op in JOIN_TABLE_OPS:
         return apply_table_join_op(op, t, choose)
+    if op in REKEY_TABLE_OPS:
+        return apply_rekey_table_op(op, t, choose)
     rx = row_exprs(t)
     names = list(t.row)
     if op == 'annotate':
@@ -572,7 +678,10 @@ def apply_table_op(op, t, choose):
 
 def run_table_program(choose, k, text_check=None):
     trace = []
-    t = hl.utils.range_table(choose('n', _f('ns', [0, 3])))
+    if PF.get('wide_start'):
+        t = _wide_table(3)           # row (idx, a: int32, b: str), key idx
+    else:
+        t = hl.utils.range_table(choose('n', _f('ns', [0, 3])))
     trace.append(('range_table', (), str(t.row.dtype)))
     check_table(t, text_check)
     for step in range(k):
@@ -618,6 +727,8 @@ def mexprs(mt, axis):
 def apply_matrix_op(op, mt, choose):
     if op in JOIN_MATRIX_OPS:
         return apply_matrix_join_op(op, mt, choose)
+    if op in REKEY_MATRIX_OPS:
+        return apply_rekey_matrix_op(op, mt, choose)
     if op == 'annotate_rows':
         ex = mexprs(mt, 'row')
         return mt.annotate_rows(**{choose('name', _f('names', ['x', list(mt.row)[-1]])): ex[choose('expr', _f('mexprs', ex))]()})
@@ -673,7 +784,7 @@ def apply_matrix_op(op, mt, choose):
 
 def run_matrix_program(choose, k, text_check=None):
     trace = []
-    mt = hl.utils.range_matrix_table(2, 2)
+    mt = _wide_matrix() if PF.get('wide_start') else hl.utils.range_matrix_table(2, 2)
     trace.append(('range_matrix_table', (), str(mt.entry.dtype)))
     check_matrix(mt, text_check)
     cur = mt
